@@ -4,7 +4,7 @@ From Coq Require Import List NArith ZArith Bool.
 From Coq.Strings Require Import Byte.
 Require Import GV.Base.Res GV.Base.Byt GV.Base.Ints.
 Require Import GV.Model.Leb GV.Model.Prim GV.Model.OpDec GV.Model.OpVal GV.Model.OpEval GV.Spec.StackSpec.
-Require Import GV.Proofs.OpDecProofs GV.Proofs.OpValProofs.
+Require Import GV.Proofs.OpDecProofs GV.Proofs.OpValProofs GV.Proofs.OpEvalProofs.
 Import ListNotations.
 Local Open Scope N_scope.
 
@@ -52,21 +52,15 @@ Proof. vm_compute. reflexivity. Qed.
 
 (* ------------------------------------------------------------------------------------------------
    2. Value arithmetic.  `canon sz v` is the value v denotes on a target with sz-byte addresses (a
-   generic value is its residue modulo 2^(8 sz)).  For address sizes 1, 2, 4, 8, every fops (IEEE
-   arithmetic is a parameter), all well-formed operands a b: the result of the model of
-   Value::op(a, b, addr_mask), canonicalised, is the DWARF stack machine's op applied to the
-   canonical operands — same value or same error.  Signedness per operation is in Spec/StackSpec.v
-   (div/abs/neg/shra/compare signed, mod/shr unsigned; shifts by >= width give 0 or the sign). *)
-Definition agrees1 (sz : N) (m : value -> N -> res value) (s : value -> res value) : Prop :=
-  forall a, addr_size sz -> wf_value a = true -> cres sz (m a (amask sz)) = s (canon sz a).
-Definition agrees2 (sz : N) (m : value -> value -> N -> res value) (s : value -> value -> res value) : Prop :=
-  forall a b, addr_size sz -> wf_value a = true -> wf_value b = true ->
-    cres sz (m a b (amask sz)) = s (canon sz a) (canon sz b).
-(* shifts: the same, for counts that are canonical when generic (see shift_count_refuted) *)
-Definition agrees_shift (sz : N) (m : value -> value -> N -> res value) (s : value -> value -> res value) : Prop :=
-  forall a b, addr_size sz -> wf_value a = true -> wf_value b = true -> count_ok sz b ->
-    cres sz (m a b (amask sz)) = s (canon sz a) (canon sz b).
-
+   generic value is its residue modulo 2^(8 sz); typed values are canonical by construction).
+   For address sizes 1, 2, 4, 8 (addr_size), every fops (IEEE arithmetic is a parameter), all
+   well-formed operands: the model of Value::op(a, b, addr_mask), canonicalised (cres), is the DWARF
+   stack machine's op on the canonical operands — the same value or the same error.  Signedness per
+   operation is in Spec/StackSpec.v (div/abs/neg/shra/compare signed, mod/shr unsigned; shifts by
+   >= width give 0 or the sign).  agrees1/agrees2/agrees_shift (Proofs/OpValProofs.v) are
+     agrees2 sz m s := forall a b, addr_size sz -> wf_value a = true -> wf_value b = true ->
+                         cres sz (m a b (amask sz)) = s (canon sz a) (canon sz b)
+   and agrees_shift additionally assumes count_ok sz b (a generic shift count is canonical). *)
 Theorem value_ops : forall (F : fops) (sz : N),
   agrees2 sz (vadd F) (sp_add sz F) /\ agrees2 sz (vsub F) (sp_sub sz F) /\ agrees2 sz (vmul F) (sp_mul sz F) /\
   agrees2 sz (vdiv F) (sp_div sz F) /\ agrees2 sz vrem (sp_rem sz) /\
@@ -77,29 +71,34 @@ Theorem value_ops : forall (F : fops) (sz : N),
   agrees_shift sz vshl (sp_shl sz) /\ agrees_shift sz vshr (sp_shr sz) /\ agrees_shift sz vshra (sp_shra sz) /\
   (forall a t, addr_size sz -> wf_value a = true -> cres sz (convert F a t (amask sz)) = sp_convert sz F (canon sz a) t) /\
   (forall a t, addr_size sz -> wf_value a = true -> cres sz (reinterpret a t (amask sz)) = sp_reinterpret sz (canon sz a) t).
-Proof.
-  intros F sz. unfold agrees1, agrees2, agrees_shift.
-  repeat split; intros.
-  - now apply vadd_spec. - now apply vsub_spec. - now apply vmul_spec. - now apply vdiv_spec.
-  - now apply vrem_spec. - now apply vand_spec. - now apply vor_spec. - now apply vxor_spec.
-  - now apply vnot_spec. - now apply vneg_spec. - now apply vabs_spec.
-  - now apply veq_spec. - now apply vge_spec. - now apply vgt_spec. - now apply vle_spec.
-  - now apply vlt_spec. - now apply vne_spec.
-  - now apply vshl_spec. - now apply vshr_spec. - now apply vshra_spec.
-  - now apply convert_spec. - now apply reinterpret_spec.
-Qed.
+Proof. exact value_ops_lemma. Qed.
 
-(* "Generic values compared modulo the address size" FAILS for the count operand of shl/shr/shra:
-   Value::shift_length takes the raw 64-bit container.  On a 4-byte target the generic count
-   2^32+1 denotes 1; the stack machine gives 1 << 1 = 2, gimli gives 0.  (known_findings.txt) *)
+(* "Generic values compared modulo the address size", one operation at a time: operands denoting the
+   same canonical values give results denoting the same canonical value (or the same error) — for
+   every operation, EXCEPT that the shift operations need canonical generic counts. *)
+Theorem mask_invariance_partial : forall (F : fops) (sz : N) (a a' b b' : value),
+  addr_size sz -> wf_value a = true -> wf_value a' = true -> wf_value b = true -> wf_value b' = true ->
+  canon sz a = canon sz a' -> canon sz b = canon sz b' ->
+  (forall op, In op [vadd F; vsub F; vmul F; vdiv F; vrem; vand F; vor F; vxor F; veq; vge; vgt; vle; vlt; vne] ->
+     cres sz (op a b (amask sz)) = cres sz (op a' b' (amask sz))) /\
+  (forall op, In op [vnot F; vneg; vabs] -> cres sz (op a (amask sz)) = cres sz (op a' (amask sz))) /\
+  (forall op, In op [vshl; vshr; vshra] -> count_ok sz b -> count_ok sz b' ->
+     cres sz (op a b (amask sz)) = cres sz (op a' b' (amask sz))) /\
+  (forall t, cres sz (convert F a t (amask sz)) = cres sz (convert F a' t (amask sz))) /\
+  (forall t, cres sz (reinterpret a t (amask sz)) = cres sz (reinterpret a' t (amask sz))).
+Proof. exact mask_invariance_ops. Qed.
+(* Full statement (DESIGN): stacks related pointwise by "equal modulo 2^(8 sz) on Generic" step to related
+   stacks with identical requests/results, for whole evaluations.  Missing: (a) it is FALSE for the
+   shift count (next theorem), (b) the lifting of the per-operation statement through
+   evaluate_one_operation/evaluate_internal is not proved; it is exercised by stream c07.spec. *)
+
+(* The modulo-address-size reading FAILS for the count operand of shl/shr/shra: Value::shift_length
+   takes the raw 64-bit container.  On a 4-byte target the generic count 2^32+1 denotes 1; the stack
+   machine gives 1 << 1 = 2, gimli gives 0.  (known_findings.txt, proposed_fixes/) *)
 Theorem shift_count_refuted :
   exists (sz : N) (a b : value), addr_size sz /\ wf_value a = true /\ wf_value b = true /\
     cres sz (vshl a b (amask sz)) <> sp_shl sz (canon sz a) (canon sz b).
-Proof.
-  exists 4, (mkV TGeneric 1), (mkV TGeneric 4294967297).
-  destruct shift_count_witness as [H1 H2]. repeat split; try (right; right; left; reflexivity).
-  rewrite H1, H2. discriminate.
-Qed.
+Proof. exact shift_count_refuted_lemma. Qed.
 
 (* the hypotheses are satisfiable by non-trivial instances; two boundary computations *)
 Example value_ex_hyp : addr_size 2 /\ wf_value (mkV TGeneric 18446744073709551615) = true /\ count_ok 2 (mkV TGeneric 65535)
@@ -112,7 +111,67 @@ Example value_ex_div_min :   (* i8: -128 / -1 wraps to -128 *)
   vdiv no_fops (mkV TI8 128) (mkV TI8 255) (amask 4) = Ok (mkV TI8 128).
 Proof. vm_compute. reflexivity. Qed.
 
+(* ------------------------------------------------------------------------------------------------
+   3. Evaluation.  inv s := the pc is a suffix of the current bytecode and every saved caller pc is a
+   suffix of its bytecode.  It holds initially and is preserved by every step of the evaluator
+   (evaluate_one_operation, end_of_expression, every resume_with_*, evaluate_internal); under it
+   compute_pc never reaches the out-of-slice case. *)
+Theorem pc_in_bounds : forall (F : fops) (dbg : bool) (c : cfg) (mask : N),
+  (forall bs, inv (initial_state bs)) /\
+  (forall s r s', inv s -> evaluate_one_operation F dbg c mask s = Ok (r, s') -> inv s') /\
+  (forall s, inv s -> inv (snd (end_of_expression s))) /\
+  (forall w a s s', inv s -> resume_apply F c mask w a s = Ok s' -> inv s') /\
+  (forall fuel n s o s', c_max c = Some n -> n < 4294967295 -> inv s -> s_iter s <= n ->
+     evaluate_internal F fuel dbg c mask s = Ok (o, s') -> inv s') /\
+  (forall s t, inv s -> compute_pc s t <> Panic).
+Proof. exact pc_in_bounds_lemma. Qed.
+
+(* Branch targets: with the pc inside the bytecode (and a bytecode shorter than 2^63 bytes), DW_OP_skip /
+   DW_OP_bra with 16-bit offset t land exactly when 0 <= offset_of_next_op + t <= len — the end of the
+   expression is a valid target, anything else is BadBranchTarget; no wrap-around is accepted. *)
+Theorem branch_target_exact : forall (s : st) (t : Z),
+  sfx (s_pc s) (s_bytecode s) -> (- 32768 <= t < 32768)%Z -> N.of_nat (length (s_bytecode s)) < 2 ^ 63 ->
+  let off := (Z.of_nat (length (s_bytecode s)) - Z.of_nat (length (s_pc s)))%Z in
+  compute_pc s t =
+    if ((0 <=? off + t) && (off + t <=? Z.of_nat (length (s_bytecode s))))%Z
+    then Ok (skipn (Z.to_nat (off + t)) (s_bytecode s)) else Err EBadBranchTarget.
+Proof. exact compute_pc_exact. Qed.
+
+(* Iteration limit.  With max_iterations = Some n (n < u32::MAX), address size <= 8 and fuel n+1, for
+   EVERY program, answer list, configuration and both build modes the whole conversation
+   (evaluate + all resumes): never runs out of fuel (so it terminates: a looping program ends in
+   Err TooManyIterations), never panics, and on completion at most n operations were evaluated and at
+   most 2n decoded (one per iteration plus at most one extra decode after a completing operation).
+   bounded_final n f := f <> FOutOfFuel /\ f <> FPanic /\
+                        forall ps vr nops nparse, f = FComplete ps vr nops nparse -> nops <= n /\ nparse <= 2 * n *)
+Theorem iteration_bound : forall (F : fops) (dbg : bool) (c : cfg) (n : N) (fuel : nat)
+    (program : list byte) (answers : list answer),
+  c_max c = Some n -> n < 4294967295 -> e_asz (c_enc c) <= 8 -> (N.to_nat n < fuel)%nat ->
+  bounded_final n (snd (run F fuel dbg c program answers)).
+Proof. exact run_bound. Qed.
+
+Definition ex_cfg (maxit : option N) : cfg := mkCfg (mkEnc 4 false 4 false) None maxit None None None None.
+Example iteration_ex_loop :     (* `DW_OP_skip -3` jumps to itself: the limit error, not a hang *)
+  run no_fops 7 true (ex_cfg (Some 6)) [x2f; xfd; xff] [] = ([], FErr ETooManyIterations).
+Proof. vm_compute. reflexivity. Qed.
+Example iteration_ex_exact :    (* lit1 lit2 plus stack_value: 4 operations need a limit of 4 *)
+  run no_fops 5 true (ex_cfg (Some 4)) [x31; x32; x22; x9f] [] =
+    ([], FComplete [mkPiece None None (LValue (mkV TGeneric 3))] None 4 4) /\
+  run no_fops 4 true (ex_cfg (Some 3)) [x31; x32; x22; x9f] [] = ([], FErr ETooManyIterations).
+Proof. split; vm_compute; reflexivity. Qed.
+Example iteration_ex_extra_decode :   (* reg0 piece 4: one iteration, two decodes *)
+  run no_fops 3 true (ex_cfg (Some 1)) [x50; x93; x04] [] =
+    ([], FComplete [mkPiece (Some 32) None (LRegister 0)] None 1 2).
+Proof. vm_compute. reflexivity. Qed.
+Example branch_ex_into_operand :      (* Bra/Skip may land inside an instruction: skip -2 re-decodes its own operand bytes *)
+  run no_fops 9 true (ex_cfg (Some 8)) [x31; x2f; xfe; xff] [] = ([], FErr EInvalidExpression).
+Proof. vm_compute. reflexivity. Qed.
+
 Check decode_table : forall (dbg : bool) (e : enc) (opc : byte) (bs : list byte),
   parse_op dbg e (opc :: bs) = generic_decode dbg e opc bs.
 Check decode_no_panic : forall (dbg : bool) (e : enc) (bs : list byte),
   parse_op dbg e bs <> Panic /\ parse_op dbg e bs <> OutOfFuel.
+Check iteration_bound : forall (F : fops) (dbg : bool) (c : cfg) (n : N) (fuel : nat)
+    (program : list byte) (answers : list answer),
+  c_max c = Some n -> n < 4294967295 -> e_asz (c_enc c) <= 8 -> (N.to_nat n < fuel)%nat ->
+  bounded_final n (snd (run F fuel dbg c program answers)).
